@@ -227,6 +227,12 @@ def run_job(job):
                 elif getattr(eng, "exits", 1) == 0:
                     out["reachable"] = False  # no path reached the end of the function: contradictory precondition
                 out["vcs"] = [VCRec(v) for v in vcs]
+                if getattr(eng, "incomplete", None):
+                    # some path left the subset: nothing is proved for this function, but refutations found on the
+                    # paths that were executed stand
+                    out["undecided"] = "out-of-subset: %s" % eng.incomplete
+                    out["vcs"] = [VCRec(v) for v in vcs if v.status == "sat"]
+                    out["reachable"] = True
                 out["assumptions"] = sorted(eng.assumptions_used)
                 out["inlined"] = sorted(eng.inlined)
                 out["paths"] = eng.npaths
@@ -317,6 +323,14 @@ def run_property(prop, tier="quick", repo_root=None, verbose=False, jobs=None):
             continue
         if r["undecided"]:
             report["undecided"].append({"function": r["target"], "reason": r["undecided"]})
+            # refutations found on fully executed paths of a function that left the subset elsewhere still stand
+            for v in r["vcs"]:
+                if v.status == "sat":
+                    ob = obligations.setdefault(v.name, Obligation(v.name))
+                    ob.vcs.append(v)
+                    ob.kind = v.kind
+                    ob.note = v.note or ob.note
+                    ob.target = r["target"]
             continue
         if r["function"]:
             r["function"]["wall_s"] = round(r["wall"], 2)
